@@ -1,11 +1,11 @@
 #!/bin/bash
-# tools/equivalents.sh [jobs] - property-preserving rewrites must stay quiet.
+# tools/equivalents.sh [jobs] [name-regex] - property-preserving rewrites must stay quiet.
 # For every seeded-equivalent/<name>/patch.diff: the crate's own suite must
 # pass with it, and the related checks (the property in the name, C17, and a
 # few neighbours that share code) must exit 0 against the rewritten copy.
 # Runs JOBS scratch builds in parallel (default 4).
 VERIF="$(cd "$(dirname "${BASH_SOURCE[0]}")/.." && pwd)"
-JOBS="${1:-4}"
+JOBS="${1:-4}"; FILTER="${2:-.}"
 export CARGO_NET_OFFLINE=true
 OUT="$(mktemp -d /tmp/pkgsim-eq-all.XXXXXX)"
 trap 'rm -rf "$OUT" /tmp/pkgsim-mut-target-eq-* /tmp/pkgsim-seed-target-eq-*' EXIT
@@ -32,6 +32,7 @@ one() {
 i=0
 for d in "$VERIF"/seeded-equivalent/*/; do
   [ -f "$d/patch.diff" ] || continue
+  basename "$d" | grep -qE "$FILTER" || continue
   slot=$((i % JOBS)); i=$((i+1))
   echo "${d%/}" >> "$OUT/list.$slot"
 done
